@@ -260,7 +260,9 @@ func (st *c20Store) runSession(h *c20History, k int, op c20Op, delta *big.Int, c
 	strat, _ := pump.StrategyByName([]string{"fifo", "random", "lifo"}[rng.Intn(3)])
 	silenceAt := -1
 	if op.How == "silence" {
-		silenceAt = n + rng.Intn(3*n) // after every Start and a few deliveries
+		// early enough that nobody can have sent a round-2 message yet: that takes n Starts and n-1 deliveries to
+		// one party, i.e. 2n-1 steps; the victim's later messages then never exist and the others wait for them
+		silenceAt = n + rng.Intn(n-1)
 	}
 	for step := 0; step < 100000; step++ {
 		if step == silenceAt {
@@ -526,7 +528,7 @@ func c20RunHistory(h c20History, reg *c20NonceReg) (out *c20HistResult) {
 			}
 			o.Done = sr.done
 			o.ArgSame = sr.argSame
-			if !sr.argSame {
+			if !sr.argSame && op.D > 0 {
 				kind := op.Op
 				if op.Op == "Abort" {
 					kind = "Abort-" + op.How
